@@ -116,6 +116,20 @@ func c13Ops(u *nodelite.Universe, thorough bool) []c13Op {
 	return ops
 }
 
+// c13RootGets: Get(ModeGetRequest) of each file's root under the file's own context.
+func c13RootGets(u *nodelite.Universe) []c13Op {
+	var out []c13Op
+	for _, f := range u.Files {
+		f := f
+		out = append(out, c13Op{name: fmt.Sprintf("get(%s|%s)", u.Name(f.Root), f.Name), kind: "get-request", race: true, run: func(n *nodelite.Node) string {
+			n.Deliverable = func(boson.Address) bool { return false }
+			defer func() { n.Deliverable = nil }()
+			return c13Err(n.FetchChunk(f.Root, f.Root))
+		}})
+	}
+	return out
+}
+
 func TestVerifC13(t *testing.T) {
 	names := []string{"A", "B", "C", "D"}
 	letters := map[string]string{"A": "xy", "B": "xz", "C": "y", "D": "ww"}
@@ -137,22 +151,87 @@ func TestVerifC13(t *testing.T) {
 			raceNames = append(raceNames, o.name)
 		}
 	}
+	// racers only: a request-get of every file that can be an eviction candidate (access to the file being evicted)
+	for _, o := range c13RootGets(u) {
+		have := false
+		for _, r := range raceOps {
+			have = have || r.name == o.name
+		}
+		if !have {
+			raceOps = append(raceOps, o)
+			raceNames = append(raceNames, o.name)
+		}
+	}
 	const gcCap = 8
 	mc.Run(t, mc.Config{ID: "C13", Name: "C13-gc-accounting", MaxDev: maxDev, Params: map[string]interface{}{
 		"depth": depth, "alphabet": opNames, "race_alphabet": raceNames, "max_racing_ops": maxDev, "capacities": capacities,
 		"files": letters, "chunk_size": boson.ChunkSize,
-		"gc": "worker loop run synchronously after every operation that left a trigger pending; in each collectGarbage call one racing operation may run at testHookGCIteratorDone",
+		"scenarios": "capacity 8 empty | capacity 1000 empty | capacity 8 warm (cache(A); cache(C)+run; cache(A): two small gc entries, depth-1 steps)",
+		"gc": "worker loop run synchronously after every operation that left a trigger pending; one racing operation per execution may run at testHookGCIteratorDone or at the entry of any chunkinfo.DelFile call of the collector (one per candidate)",
 	}}, func(x *mc.X) {
-		capacity := capacities[x.Choose(len(capacities))]
-		x.Logf("capacity %d", capacity)
+		// scenario: empty store with capacity 8 or 1000, or a "warm" store (capacity 8) holding two small gc
+		// entries — cache(A); cache(C) [run evicts A]; cache(A) leaves C.R#2 and A.R#4 — so that the next
+		// overflow selects SEVERAL candidates in one run (with one candidate a racer can only hit that one)
+		sc := x.Choose(len(capacities) + 1)
+		warm := sc == len(capacities)
+		capacity := uint64(8)
+		if !warm {
+			capacity = capacities[sc]
+		}
+		x.Logf("capacity %d warm=%v", capacity, warm)
 		n, err := nodelite.New(nodelite.Options{Capacity: capacity, Universe: u})
 		x.NoErr(err, "node")
 		defer n.Close()
+		steps := depth
+		if warm {
+			steps = depth - 1
+			x.NoErr(n.Cache(u.ByName["A"]), "warm-up cache(A)")
+			x.NoErr(n.Cache(u.ByName["C"]), "warm-up cache(C)")
+			if r := n.GC(8); r.CapHit || r.Err != nil {
+				x.Broken("warm-up collection: %+v", r)
+			}
+			x.NoErr(n.Cache(u.ByName["A"]), "warm-up cache(A) again")
+			ws, err := n.Snap()
+			x.NoErr(err, "snapshot")
+			if ws.Trigger || len(ws.GC) < 2 {
+				x.Broken("warm-up state unusable: %s", ws.Key())
+			}
+			x.Logf("warm-up: cache(A); cache(C)+run; cache(A)   [%s]", ws.Key())
+		}
+		// roots whose deletion callback had already run when the racing operation executed (set per collection run)
+		var processedAtRace map[string]bool
 		check := func(kind, what string) nodelite.Snapshot {
 			s, err := n.Snap()
 			x.NoErr(err, "snapshot")
 			if run, _ := n.DB.VerifGCRunning(); run {
 				x.Broken("gcRunning still set outside a collection run")
+			}
+			// the counters are "recorded for collectable files": an entry must belong to a file whose root is
+			// stored, agree with the access index, and be the only entry of that root
+			seenRoot := map[string]bool{}
+			for _, e := range s.GC {
+				if !s.Data[e.Root] {
+					x.Logf("      [%s]", s.Key())
+					k := "gc-entry-of-removed-file-after-" + kind
+					if kind == "raced-gc" && processedAtRace != nil {
+						// which side of the file's deletion callback the racing operation ran on
+						if processedAtRace[e.Root] {
+							k += "-racer-ran-after-the-files-deletion-was-decided"
+						} else {
+							k += "-racer-ran-before-the-files-deletion-was-decided"
+						}
+					}
+					x.Fail(k, "after %s: gc index holds %s#%d but the file's root chunk is not stored (its %d chunks are counted in gcSize=%d)   [%s]", what, e.Root, e.Counter, e.Counter, s.GCSize, s.Key())
+				}
+				if at, ok := s.Access[e.Root]; !ok || at != e.TS {
+					x.Logf("      [%s]", s.Key())
+					x.Fail("gc-entry-without-matching-access-entry-after-"+kind, "after %s: gc entry %s#%d has no access-index entry with its time stamp   [%s]", what, e.Root, e.Counter, s.Key())
+				}
+				if seenRoot[e.Root] {
+					x.Logf("      [%s]", s.Key())
+					x.Fail("duplicate-gc-entries-after-"+kind, "after %s: two gc entries for %s   [%s]", what, e.Root, s.Key())
+				}
+				seenRoot[e.Root] = true
 			}
 			if sum := s.GCSum(); s.GCSize != sum {
 				x.Logf("      [%s]", s.Key())
@@ -161,7 +240,7 @@ func TestVerifC13(t *testing.T) {
 			return s
 		}
 		gcs, raced := 0, 0
-		for step := 0; step < depth; step++ {
+		for step := 0; step < steps; step++ {
 			op := ops[x.Choose(len(ops))]
 			out := op.run(n)
 			x.Logf("%s -> %s", op.name, out)
@@ -170,7 +249,9 @@ func TestVerifC13(t *testing.T) {
 			x.Logf("      [%s]", s.Key())
 			if s.Trigger {
 				racedNow := ""
-				res := n.GCHooked(gcCap, func(run int) {
+				processedAtRace = nil
+				var doneRoots []string
+				race := func(point string) {
 					k := x.Deviate(1 + len(raceOps))
 					if k == 0 {
 						return
@@ -179,8 +260,23 @@ func TestVerifC13(t *testing.T) {
 					out := r.run(n)
 					racedNow += r.kind + " "
 					raced++
-					x.Logf("   .. during collectGarbage #%d, between candidate selection and eviction: %s -> %s", run+1, r.name, out)
-				})
+					processedAtRace = map[string]bool{}
+					for _, d := range doneRoots {
+						processedAtRace[d] = true
+					}
+					x.Logf("   .. inside the collection run, at %s: %s -> %s", point, r.name, out)
+				}
+				nCand := 0
+				n.OnGCDelFile = func(root boson.Address) {
+					nCand++
+					race("entry of DelFile(" + u.Name(root) + ")")
+				}
+				n.AfterGCDelFile = func(root boson.Address, _ error) { doneRoots = append(doneRoots, u.Name(root)) }
+				res := n.GCHooked(gcCap, func(run int) { race(fmt.Sprintf("the iterator hook of collectGarbage #%d", run+1)) })
+				n.OnGCDelFile, n.AfterGCDelFile = nil, nil
+				if nCand > res.Runs {
+					x.Tag("collection-run-with-several-candidates")
+				}
 				gcs += res.Runs
 				kind, what := "gc", "a collection run"
 				if racedNow != "" {
@@ -212,7 +308,7 @@ func TestVerifC13(t *testing.T) {
 			x.NoErr(err, "infokey")
 			sk, err := n.Snap()
 			x.NoErr(err, "snapshot")
-			if x.Seen(fmt.Sprintf("cap%d#", capacity)+sk.Key()+"#"+ik, depth-step-1) {
+			if x.Seen(fmt.Sprintf("cap%d#", capacity)+sk.Key()+"#"+ik, steps-step-1) {
 				return
 			}
 		}
